@@ -234,3 +234,218 @@ def read_sections(s: str, section_names, default):
             out[current].append((INSTRUCTION, i + 1, (line,)))
             i += 1
     return out
+
+
+# --------------------------------------------------------------------------- K4: test-case files
+
+PHASES = ('conf', 'setup', 'act', 'before-assert', 'assert', 'cleanup')
+DEFAULT_PHASE = 'act'
+INCLUDING = 'including'
+MULTI_LINE_END = 'EOF'
+# instruction names known in every phase but act: `i` takes the rest of its line, `m` takes its line and
+# every following line up to and including a line that is exactly EOF
+KNOWN_INSTRUCTIONS = ('i', 'm')
+
+
+def _norm(path: str) -> str:
+    import posixpath
+    return posixpath.normpath(path)
+
+
+def _dir_of(path: str) -> str:
+    import posixpath
+    return posixpath.dirname(path)
+
+
+def _join(d: str, p: str) -> str:
+    import posixpath
+    return _norm(posixpath.join(d, p))
+
+
+class Element(tuple):
+    """(phase, type, first line number, lines, file as referred to, chain, description, payload)
+    chain = tuple of (file as referred to, line number, line text) of the including directives, outermost first.
+    payload: for `i` the argument text, for `m` the tuple of body lines, for act the tuple of source lines."""
+
+    def __new__(cls, phase, type_, first, lines, file, chain, description=None, payload=None, name=None):
+        return tuple.__new__(cls, (phase, type_, first, tuple(lines), file, tuple(chain), description, payload, name))
+
+    phase = property(lambda self: self[0])
+    type = property(lambda self: self[1])
+    first = property(lambda self: self[2])
+    lines = property(lambda self: self[3])
+    file = property(lambda self: self[4])
+    chain = property(lambda self: self[5])
+    description = property(lambda self: self[6])
+    payload = property(lambda self: self[7])
+    name = property(lambda self: self[8])
+
+    def content(self):
+        """what the element says, without where it stands (for the permutation relation)"""
+        return (self[1], self[3], self[4], self[5], self[6], self[7], self[8])
+
+
+class DocError(Exception):
+    """The reference reader's verdict `erroneous document`.
+    kind: 'syntax' (error in the text of a file) or 'file-access' (missing file, cyclic inclusion)
+    what: short tag of the cause;  first/lines: the reported source lines;  file/chain as for Element;
+    section: the phase the error belongs to (None for header errors)."""
+
+    def __init__(self, kind, what, first, lines, file, chain, section, alt_lines=None):
+        Exception.__init__(self, kind, what, first, tuple(lines), file, tuple(chain), section)
+        # alt_lines: a second acceptable form of the reported lines (the whole first line instead of the
+        # text from the instruction name on)
+        self.alt_lines = None if alt_lines is None else tuple(alt_lines)
+        self.kind = kind
+        self.what = what
+        self.first = first
+        self.lines = tuple(lines)
+        self.file = file
+        self.chain = tuple(chain)
+        self.section = section
+
+
+def _lstrip_space(s: str) -> str:
+    i = 0
+    while i < len(s) and s[i].isspace():
+        i += 1
+    return s[i:]
+
+
+def _rstrip_lines(lines):
+    """the lines of '\\n'.join(lines) with trailing white space removed"""
+    out = list(lines)
+    while len(out) > 1 and out[-1].strip() == '':
+        out.pop()
+    out[-1] = out[-1].rstrip()
+    return out
+
+
+class _FileReader:
+    def __init__(self, files, result, root_key):
+        self.files = files  # normalised path relative to the directory of the root file -> text
+        self.result = result  # phase -> list of Element
+        self.root_key = root_key
+
+    def read(self, key: str, referred_as, phase_at_entry: str, chain, stack):
+        text = self.files[key]
+        lines = source_lines(text)
+        ends_with_newline = text.endswith('\n')
+        n = len(lines)
+        phase = None
+        if n > 0 and not is_header_line(lines[0]):
+            phase = phase_at_entry
+            self.result.setdefault(phase, [])
+        i = 0
+        while i < n:
+            line = lines[i]
+            if is_header_line(line):
+                name = header_name(line)
+                if name is None:
+                    raise DocError('syntax', 'malformed-header', i + 1, [line], referred_as, chain, None)
+                if name not in PHASES:
+                    raise DocError('syntax', 'unknown-phase', i + 1, [line], referred_as, chain, None)
+                phase = name
+                self.result.setdefault(phase, [])
+                i += 1
+                continue
+            if phase == 'act':
+                j = i
+                while j < n and not is_header_line(lines[j]):
+                    j += 1
+                src = tuple(un_escape(x) for x in lines[i:j])
+                self.result[phase].append(Element(phase, INSTRUCTION, i + 1, src, referred_as, chain, None, src, 'act'))
+                i = j
+                continue
+            if is_empty_line(line):
+                j = i
+                while j < n and is_empty_line(lines[j]):
+                    j += 1
+                run = lines[i:j]
+                if j == n and ends_with_newline:
+                    run = run + ['']
+                self.result[phase].append(Element(phase, EMPTY, i + 1, run, referred_as, chain))
+                i = j
+                continue
+            if is_comment_line(line):
+                j = i
+                while j < n and is_comment_line(lines[j]):
+                    j += 1
+                self.result[phase].append(Element(phase, COMMENT, i + 1, lines[i:j], referred_as, chain))
+                i = j
+                continue
+            words = line.split()
+            if words[0] == INCLUDING:
+                if len(words) != 2:
+                    raise DocError('syntax', 'directive-arguments', i + 1, [line], referred_as, chain, phase)
+                target = words[1]
+                sub_chain = tuple(chain) + ((referred_as, i + 1, line),)
+                sub_key = _join(_dir_of(key), target)
+                if sub_key not in self.files:
+                    raise DocError('file-access', 'missing-file', i + 1, [line], referred_as, chain, phase)
+                if sub_key in stack:
+                    raise DocError('file-access', 'cyclic-inclusion', i + 1, [line], referred_as, chain, phase)
+                self.read(sub_key, target, phase, sub_chain, stack + [sub_key])
+                i += 1
+                continue
+            i = self._instruction(lines, i, text, phase, referred_as, chain)
+
+    def _instruction(self, lines, i, text, phase, referred_as, chain) -> int:
+        """element that begins on line index i: optional `description`, blank / comment lines, instruction.
+        -> index of the first line after the element"""
+        n = len(lines)
+        first_i = i
+        rest = _lstrip_space(lines[i])
+        description = None
+        if rest[0] == '`':
+            # the description extends to the next back-tick, possibly on a later line
+            tail = [rest[1:]] + lines[i + 1:]
+            j = 0
+            while j < len(tail) and '`' not in tail[j]:
+                j += 1
+            if j == len(tail):
+                raise DocError('syntax', 'description-not-ended', first_i + 1, [lines[first_i]], referred_as, chain, phase)
+            pos = tail[j].index('`')
+            description = '\n'.join(tail[:j] + [tail[j][:pos]]).strip()
+            i = i + j
+            rest = _lstrip_space(tail[j][pos + 1:])
+            if rest == '':
+                # the instruction follows on a later line; blank and comment lines in between are skipped
+                err_i = first_i
+                i += 1
+                while i < n and (is_empty_line(lines[i]) or is_comment_line(lines[i])):
+                    err_i = i
+                    i += 1
+                if i >= n:
+                    raise DocError('syntax', 'description-without-instruction', err_i + 1, [lines[err_i]],
+                                   referred_as, chain, phase)
+                rest = _lstrip_space(lines[i])
+        # `rest` = the instruction from its name to the end of its first line; i = index of that line
+        j = 0
+        while j < len(rest) and not rest[j].isspace():
+            j += 1
+        name = rest[:j]
+        arg = _lstrip_space(rest[j:])
+        if name not in KNOWN_INSTRUCTIONS:
+            raise DocError('syntax', 'unknown-instruction', i + 1, [lines[i]], referred_as, chain, phase)
+        if name == 'i':
+            self.result[phase].append(Element(phase, INSTRUCTION, i + 1, [rest], referred_as, chain, description, arg, 'i'))
+            return i + 1
+        body_start = i + 1
+        k = body_start
+        while k < n and lines[k] != MULTI_LINE_END:
+            k += 1
+        if k == n:
+            raise DocError('syntax', 'instruction-arguments', i + 1, _rstrip_lines([rest] + lines[body_start:]),
+                           referred_as, chain, phase, alt_lines=[lines[i]])
+        self.result[phase].append(Element(phase, INSTRUCTION, i + 1, [rest] + lines[body_start:k + 1], referred_as, chain,
+                                          description, tuple(lines[body_start:k]), 'm'))
+        return k + 1
+
+
+def read_test_case(files, root_key: str, root_referred_as):
+    """files: normalised posix path relative to the root file's directory -> text.
+    -> dict phase -> list of Element (file order, inclusions spliced in);  raises DocError."""
+    result = {}
+    _FileReader(files, result, root_key).read(root_key, root_referred_as, DEFAULT_PHASE, (), [root_key])
+    return result
